@@ -180,6 +180,10 @@ impl<'a> Tokenizer<'a> {
     ///
     /// Returned errors:
     fn read_nondecimal_data(&mut self, radix: u8) -> Result<Token<'a>, ErrorCode> {
+        // A non-decimal numeric has no sign (lexical-core would accept one)
+        if let Some(b'+' | b'-') = self.chars.clone().next() {
+            return Err(ErrorCode::InvalidCharacterInNumber);
+        }
         let options = lexical_core::ParseIntegerOptions::new();
         let (n, len) = match radix {
             b'H' | b'h' => {
